@@ -141,6 +141,9 @@ var contracts = map[string]contract{
 
 	"os.Open":                  {},
 	"os.Create":                {},
+	"os.CreateTemp":            {},
+	"os.Rename":                {},
+	"os.Remove":                {},
 	"os.OpenFile":              {},
 	"(*os.File).Close":         {io: true},
 	"(*os.File).Write":         {io: true},
